@@ -7,6 +7,14 @@ def oph(rx, **kw):
     d.update(kw)
     return d
 
+OPCHILD = dict(pkg="./x/opchild/keeper", overlay="harness/opchild", pkgname="keeper",
+               native=["rt.go.tmpl", "opchild_keeper.go.tmpl"])
+
+def opc(rx, **kw):
+    d = dict(OPCHILD, harness=rx)
+    d.update(kw)
+    return d
+
 COMMON_ASSUME = [
     "external calls are the models/stubs listed under coverage.stubs (DESIGN.md §5); each is part of the claim",
     "message atomicity: a handler runs on a cache of the state, discarded on error or panic (harness runMsg)",
@@ -14,6 +22,15 @@ COMMON_ASSUME = [
 ]
 
 PROPS = {
+    "C06": dict(runs=[opc("^Harness_C06_")],
+                bounds=["one delivery (any sequence, any sender) from an arbitrary symbolic pre-state — covers duplicates, replays, gaps, reordering and racing executors by induction", "at most 2 configured executors", "no hook payload (C07 covers hooks)", "sequence counters below 2^62"],
+                outside=["counter wrap-around at 2^64"], assumptions=COMMON_ASSUME),
+    "C07": dict(runs=[opc("^Harness_C07_")],
+                bounds=["hook transactions of at most 1 (quick) / 2 (thorough) messages", "fault injection (error / panic) at MintCoins, SendCoinsFromModuleToAccount, tx decoder, ante decorators (error/panic/out-of-gas), each routed hook message (error/panic/out-of-gas, arbitrary state change)", "one configured executor", "outer gas meter infinite (the property presupposes a sufficient limit)"],
+                outside=["failures of the reclaim/burn/account-creation calls beyond the bank contract (insufficient funds only)", "outer gas exhaustion, store gas"], assumptions=COMMON_ASSUME + ["ante decorators touch only the hook signer's account sequence", "no vesting/locked coins"]),
+    "C09": dict(runs=[opc("^Harness_C09_")],
+                bounds=["one message from an arbitrary pre-state; frame over every L2 message except stub-routed ExecuteMessages and the oracle update", "one coin per message", "sequence counters below 2^62"],
+                outside=["effects of arbitrary routed messages inside ExecuteMessages (bank module)"], assumptions=COMMON_ASSUME + ["module accounts do not sign messages"]),
     "C10": dict(runs=[oph("^Harness_C10_")],
                 bounds=["one message from an arbitrary symbolic pre-state (inductive step); frame/freshness harnesses: every one of the 12 L1 messages", "amounts < 2^128", "strings opaque (any length)", "fewer than 2^62 bridge ids handed out (counter does not wrap)"],
                 outside=["amounts >= 2^128"], assumptions=COMMON_ASSUME),
